@@ -74,12 +74,13 @@ theorem chunkOK_of_construct {song : Song} {d : DataInfo} (hpc : PlatformClean d
   unfold hdrSize at hsz
   have hfits := C09_index_fits_byte hasm
   obtain ⟨_, _, hsub, _, _⟩ := C09_slot_count hasm
-  refine ⟨hfl, hinv.maps, hlen, by omega, by omega, ?_, ?_⟩
+  refine ⟨hfl, hinv.maps, hlen, by omega, by omega, by omega, ?_, ?_⟩
   · intro evs he ev hev
-    obtain ⟨f1, _, _, f4⟩ := hfits evs (List.mem_append_right _ he) ev hev
-    refine ⟨fun ht => ?_, fun ht hne => ?_⟩
+    obtain ⟨f1, _, f3, f4⟩ := hfits evs (List.mem_append_right _ he) ev hev
+    refine ⟨fun ht => ?_, fun ht hne => ?_, fun ht hne => ?_⟩
     · have := f1 ht; omega
     · exact f4 ht hne
+    · exact f3 ht hne
   · intro k hk
     obtain ⟨off, stream, rest, h1, h2, h3⟩ := hsub k hk
     refine ⟨off + (4 + 4 * b.trackList.length), stream, rest, ?_, (convertTrackChk_fits h2).2, ?_⟩
@@ -141,12 +142,13 @@ theorem song_plays {song : Song} {d : DataInfo} (hpc : PlatformClean d) (hp : Pl
   have hch : ChanFlat song (ctxOf d b.conv) id b.trackList[i0].2 := by
     have := hchan b.trackList[i0] (List.getElem_mem hi0')
     rwa [hg0] at this
-  have hfitT : ∀ ev ∈ b.trackList[i0].2, FitsEv b.conv.subList.length ev := by
+  have hfitT : ∀ ev ∈ b.trackList[i0].2, FitsEv b.conv.subList.length b.conv.macroList.length ev := by
     intro ev hev
-    obtain ⟨f1, _, _, f4⟩ := hfits b.trackList[i0].2 (List.mem_append_left _ (List.mem_map.mpr ⟨_, List.getElem_mem hi0', rfl⟩)) ev hev
-    refine ⟨fun ht => ?_, fun ht hne => ?_⟩
+    obtain ⟨f1, _, f3, f4⟩ := hfits b.trackList[i0].2 (List.mem_append_left _ (List.mem_map.mpr ⟨_, List.getElem_mem hi0', rfl⟩)) ev hev
+    refine ⟨fun ht => ?_, fun ht hne => ?_, fun ht hne => ?_⟩
     · have := f1 ht; omega
     · exact f4 ht hne
+    · exact f3 ht hne
   have hconv := (convertTrackChk_fits a4).2
   have hne : stream ≠ [] := by
     obtain ⟨items0, hperf0⟩ := perf_of_expected hexp
